@@ -137,6 +137,7 @@ def run(shard: dict, ctx) -> None:
             total = len(stream) + len(suffix(cfg))
             specs = [splits.random_spec(rng, total) for _ in range(3)] + [splits.limit_spec(rng, total), splits.aligned_spec(stream, 0x7E, rng.choice((1, 2, 4)))]
             specs.append(("bytewise",) if total < 5000 else ("fixed", rng.choice((1000, 4096, 8192)), rng.randrange(1000)))
+            specs.append(splits.structural_spec(stream, rng))  # calls that begin with a flag and end right after an escape octet
             if total > 8000:
                 specs.append(("single", rng.randint(1, 40)))
             n = compare(cfg, stream, specs, ctx, states)
